@@ -378,7 +378,7 @@ func (E *Engine) callWrites(fn *ssa.Function, cc *ssa.CallCommon, site ssa.Instr
 			return
 		}
 		full := cc.Value.Type().String() + "." + cc.Method.Name()
-		if E.isNoEffect(full, cc.Method.Pkg()) || E.P.pureMethods[full] {
+		if E.isNoEffect(full, cc.Method.Pkg()) || E.P.pureMethods[full] || E.P.pureMethods[normIface(full)] {
 			return
 		}
 		if h := E.ifaceContract(cc); h != nil {
@@ -408,6 +408,9 @@ func (E *Engine) callWrites(fn *ssa.Function, cc *ssa.CallCommon, site ssa.Instr
 		case "delete", "clear":
 			if mt, ok := types.Unalias(E.subst(cc.Args[0].Type(), tenv)).Underlying().(*types.Map); ok {
 				k, s := E.mdomKey(mt, tenv)
+				E.regKey(w, k, s).bases[cc.Args[0]] = true
+			} else if stp, ok := types.Unalias(E.subst(cc.Args[0].Type(), tenv)).Underlying().(*types.Slice); ok {
+				k, s := E.arrKey(stp.Elem(), tenv)
 				E.regKey(w, k, s).bases[cc.Args[0]] = true
 			} else {
 				w.all = true
